@@ -1,9 +1,10 @@
 #!/bin/bash
-# try_seed.sh <seed name under /verif/seeded> <property>...: applies the patch to a scratch copy and runs the quick checks
+# try_seed.sh <name under /verif/seeded or /verif/benign, or a directory> <property>...: applies the patch to a scratch copy and runs the quick checks
 seed=$1; shift
 scratch=$(mktemp -d /tmp/try-seed-XXXXXX)
 rsync -a --exclude .git --exclude "*.pyc" /repo/ "$scratch/"
-( cd "$scratch" && git apply --whitespace=nowarn "/verif/seeded/$seed/patch.diff" ) || { echo "patch failed"; rm -rf "$scratch"; exit 3; }
+dir="/verif/seeded/$seed"; [ -d "$dir" ] || dir="/verif/benign/$seed"; [ -d "$dir" ] || dir="$seed"
+( cd "$scratch" && git apply --whitespace=nowarn "$dir/patch.diff" ) || { echo "patch failed"; rm -rf "$scratch"; exit 3; }
 for p in "$@"; do
   CPSA_REPO="$scratch" CPSA_EVIDENCE_DIR="$scratch/_ev" /venv/bin/python /verif/check.py "$p" 2>&1 | grep -E "^\s+cutplace|ANALYSIS|exit|Traceback|Error" | cut -c1-${WIDTH:-330} | tail -${LINES_:-8}
 done
